@@ -114,6 +114,28 @@ class Obj(object):
                         p=lambda x: tuple(ll.compute_pointwise_ll(x)),
                         s=lambda x: _s1(ll.evaluateS1(x)))
 
+    def _build_ll_sym_fix(self, tag):
+        """likelihood with a fixed mechanistic parameter; the extra step 'f'
+        swaps which mechanistic parameter is fixed (a legitimate
+        reconfiguration between evaluations: what an earlier evaluation left
+        behind in the mechanistic model must not show afterwards)"""
+        B = self.B
+        um = SymMechModel(B, n_params=3, n_outputs=1)
+        em = chi.GaussianErrorModel()
+        obs = self._watch(ps.arr(B, [B.var('y%s%d' % (tag, j))
+                                     for j in range(2)]))
+        self.user = dict(mech=um, em=em)
+        ll = chi.LogLikelihood(um, em, obs, [1.0, 2.5])
+        names = ll.get_parameter_names()
+        ll.fix_parameters({names[0]: B.var('fix_a')})
+        self.obj = ll
+        self.n = ll.n_parameters()
+        self.reconfigure = lambda: ll.fix_parameters(
+            {names[0]: None, names[1]: B.var('fix_b')})
+        self.ops = dict(v=lambda x: (ll(x),),
+                        p=lambda x: tuple(ll.compute_pointwise_ll(x)),
+                        s=lambda x: _s1(ll.evaluateS1(x)))
+
     def _build_ll_red_em(self, tag, shared=None):
         """likelihood whose user-supplied error model is a ReducedErrorModel
         that already has a fixed parameter"""
@@ -236,8 +258,14 @@ def case_seq(B, cfg):
     pts = dict(x=objs[0].pt('x'), y=objs[0].pt('z'))
     assume_support(B, pts['x'] + pts['y'])
     seen = {}
+    reconfigured = set()
     for step, (oi, op, which) in enumerate(seq):
         o = objs[oi]
+        if op == 'f':
+            o.reconfigure()
+            reconfigured.add(oi)
+            seen = {k: v for k, v in seen.items() if k[0] != oi}
+            continue
         if op not in o.ops:
             continue
         try:
@@ -248,6 +276,8 @@ def case_seq(B, cfg):
             return
         B.fact('step %d: inputs not mutated' % step, ok)
         fresh = Obj(B, kind, tag='abcd'[oi])
+        if oi in reconfigured:
+            fresh.reconfigure()
         ref, _ = run_op(B, fresh, (op, which), pts)
         B.fact('step %d: result length' % step, len(res) == len(ref),
                '%d vs %d' % (len(res), len(ref)))
@@ -380,6 +410,15 @@ def jobs(tier):
             for seq in sib:
                 out.append(('seq', 'case_seq', dict(
                     kind=kind, seq=[list(s) for s in seq]), facade))
+    # evaluations, a reconfiguration, evaluations
+    pres = [[], ['s'], ['v'], ['s', 'v'], ['v', 's'], ['p', 's']]
+    posts = [['s'], ['v'], ['s', 'v'], ['v', 's'], ['s', 's'], ['p', 's']]
+    for a in pres:
+        for b in posts:
+            seq = [[0, o, 'x'] for o in a] + [[0, 'f', 'x']] + \
+                [[0, o, 'xy'[k % 2]] for k, o in enumerate(b)]
+            out.append(('seq', 'case_seq', dict(kind='ll_sym_fix', seq=seq),
+                        {'diffcheck': False}))
     for kind in ('ll_pk', 'post_pk', 'll_pk_fixed'):
         for mut in ('rename', 'regimen', 'outputs', 'sens', 'administration'):
             out.append(('user_mutation', 'case_user_mutation',
@@ -405,7 +444,8 @@ BOUNDS = dict(
     quick='9 object kinds; all sequences of 2 evaluations from {value, '
           'pointwise, S1} x {two points} on one object, all interleavings of '
           '2 evaluations over two siblings for 4 kinds; 19 user-model '
-          'mutations',
+          'mutations; 36 sequences evaluations - swap of the fixed '
+          'mechanistic parameter - evaluations',
     thorough='sequences of 3 evaluations for the dosed / fixed-parameter '
              'objects; a seventh of the 3-step sibling interleavings',
     outside='forked worker processes (pints.ParallelEvaluator) -- OS level, '
